@@ -343,7 +343,9 @@ static void fpCase(Rng &R, int nops) {
     int b = (int)R.below(NBUS); unsigned long p = fpp[R.below(3)];
     unsigned len = R.chance(1, 6) ? (unsigned)R.range(0, 13) : R.chance(1, 8) ? (unsigned)R.range(200, 223) : (unsigned)R.range(7, 60);
     int dmg = R.chance(2, 5) ? 0 : (int)R.range(1, NDMG - 1);
-    exec(fpLine(R, b, p, 0x51 + (unsigned)R.below(2), len, seq++, dmg));
+    // at most 4 (PGN, source) pairs per bus, so unfinished messages never exhaust the 5 receive slots (that is C02's subject)
+    unsigned src = p == fpp[0] ? 0x51 + (unsigned)R.below(2) : p == fpp[1] ? 0x51 : 0x52;
+    exec(fpLine(R, b, p, src, len, seq++, dmg));
     if (R.chance(1, 5)) exec(S("msg %d %lu", b, R.chance(1, 2) ? 127488UL : p == 129029UL ? 129029UL : 130306UL));
     if (R.chance(1, 12)) exec(S("tp %d %lu", b, p));
     if (R.chance(1, 15)) exec(S("%s %d %d", R.chance(1, 2) ? "attach" : "detach", (int)R.below(5), (int)R.below(NBUS)));
